@@ -124,3 +124,47 @@ Proof.
     apply (ImportOK_perm ps cs (write_regs a ps cs) (write_courses a cs)); [apply Permutation_sym; exact Pr| |exact Hok].
     rewrite <- (course_rows_flags (write_courses a cs) rooms). apply Permutation_map. apply Permutation_sym. exact Pc.
 Qed.
+
+(* ---- corollaries used by C11: what the file can and cannot mention ---- *)
+(* every registration the file mentions is a participant of the problem ... *)
+Theorem importok_regs_are_participants ps cs regs crs rid cid : ImportOK ps cs regs crs -> In (rid, cid) regs -> In rid (map rp_dbid ps).
+Proof.
+  intros H Hin. destruct (io_assigned _ _ _ _ H rid cid Hin) as (p & c & (Hp & Hid & _) & _). rewrite <- Hid. apply in_map. apply nth_In. exact Hp.
+Qed.
+(* ... every course it mentions is a course of the problem ... *)
+Theorem importok_courses_of_problem ps cs regs crs cid flag : ImportOK ps cs regs crs -> In (cid, flag) crs -> In cid (map rc_dbid cs).
+Proof.
+  intros H Hin. destruct (io_courses _ _ _ _ H cid flag Hin) as (c & (Hc & Hid & _) & _). rewrite <- Hid. apply in_map. apply nth_In. exact Hc.
+Qed.
+(* ... and a course with reserved places (fixed: somebody ignored sits in it or instructs it) is marked as taking place *)
+Theorem importok_fixed_active ps cs regs crs c : NoDup (map rc_dbid cs) -> ImportOK ps cs regs crs -> c < List.length cs ->
+  rc_fixed (nth c cs dflt_c) = true -> In (rc_dbid (nth c cs dflt_c), true) crs.
+Proof.
+  intros ND H Hc Hf. destruct (io_all_courses _ _ _ _ H c Hc) as ([|] & Hin); [exact Hin|].
+  destruct (io_courses _ _ _ _ H _ false Hin) as (c' & (Hc' & Hid & _) & _ & Hfalse). destruct (Hfalse eq_refl) as [_ Hnf].
+  assert (c' = c) by (apply (key_inj rc_dbid dflt_c cs c' c ND Hc' Hc Hid)). subst c'. congruence.
+Qed.
+
+(* C11 end to end: for an accepted export with canonical keys (any options, in particular --ignore-assigned / --ignore-cancelled), any
+   hard-feasible assignment and the writer's document: every registration the import side finds is a participant of the problem, every course
+   it finds is a course of the problem, and every course with reserved places is marked as taking place *)
+Theorem export_to_import_c11 data track ign_c ign_a ff of ps cs amb K a rooms sm ts :
+  read_fields data track ign_c ign_a ff of = ROk (ps, cs, amb) -> keys_canonical data = true ->
+  HardOK_K (map to_course cs) (map to_part ps) K a ->
+  (forall c, K c = true -> c < nc (map to_course cs) /\ c_fixed (crs (map to_course cs) c) = false) ->
+  match rooms with Some (_, l) => List.length l = List.length cs | None => True end ->
+  exists im,
+    import_of_doc (ra_track amb) (write_doc (ra_event amb) (ra_track amb) (write_regs a ps cs) (write_courses a cs) rooms sm ts) = Some im /\
+    (forall rid cid, In (rid, cid) (im_regs im) -> In rid (map rp_dbid ps)) /\
+    (forall cid flag fld, In (cid, flag, fld) (im_courses im) -> In cid (map rc_dbid cs)) /\
+    (forall c, c < List.length cs -> rc_fixed (nth c cs dflt_c) = true -> exists fld, In (rc_dbid (nth c cs dflt_c), true, fld) (im_courses im)).
+Proof.
+  intros Hr Hk Hh HK Hrooms.
+  destruct (export_to_import data track ign_c ign_a ff of ps cs amb K a rooms sm ts Hr Hk Hh HK Hrooms) as (im & Him & _ & _ & Hok).
+  exists im. split; [exact Him|]. split; [|split].
+  - intros rid cid Hin. apply (importok_regs_are_participants _ _ _ _ rid cid Hok Hin).
+  - intros cid flag fld Hin. apply (importok_courses_of_problem _ _ _ _ cid flag Hok). apply in_map_iff. exists (cid, flag, fld). split; [reflexivity|exact Hin].
+  - intros c Hc Hf. rewrite read_fields_refines_spec in Hr. destruct (spec_read_ids_distinct data track ign_c ign_a ff of ps cs amb Hr Hk) as [_ NDc].
+    pose proof (importok_fixed_active _ _ _ _ c NDc Hok Hc Hf) as Hin. apply in_map_iff in Hin. destruct Hin as ([[cid fl] fld] & E & Hin).
+    unfold row_flag in E. cbn [fst snd] in E. inversion E; subst. exists fld. exact Hin.
+Qed.
